@@ -46,6 +46,8 @@ PROPS = {
     },
     "C08": {
         "proof_files": ["Proofs/ManagerFacts.v"],
+        "generated": {"cmd": ["consts-extract"], "out": "Gen/SrcConsts.v",
+                      "compile": ["Gen/SrcConsts.v", "Properties/C08_consts.v"], "theorem": "C08_consts_agree"},
         "runs": [{"engine": "manager", "args": [], "n_quick": 500, "n_thorough": 40000},
                  {"engine": "manager", "args": ["-mode", "hang"], "n_quick": 8, "n_thorough": 60}],
         "trivial_tags": [r"^e0/"],
@@ -60,6 +62,8 @@ PROPS = {
     },
     "C09": {
         "proof_files": ["Proofs/ManagerFacts.v", "Mutants/ManagerLock.v"],
+        "generated": {"cmd": ["consts-extract"], "out": "Gen/SrcConsts.v",
+                      "compile": ["Gen/SrcConsts.v", "Properties/C08_consts.v"], "theorem": "C08_consts_agree"},
         "runs": [{"engine": "manager", "args": [], "n_quick": 500, "n_thorough": 40000},
                  {"engine": "manager", "args": ["-mode", "hang"], "n_quick": 8, "n_thorough": 60}],
         "trivial_tags": [r"^e0/"],
@@ -176,8 +180,9 @@ PROPS = {
                         "printable values without surrounding whitespace (the property's quantifier)"],
     },
     "C18": {
-        "proof_files": ["Proofs/DiscoveryFacts.v", "Proofs/ConfigFacts.v", "Proofs/LeaseFacts.v", "Proofs/SortedFacts.v", "Proofs/MdnsFacts.v"],
+        "proof_files": ["Proofs/DiscoveryFacts.v", "Proofs/ConfigFacts.v", "Proofs/LeaseFacts.v", "Proofs/SortedFacts.v", "Proofs/MdnsFacts.v", "Proofs/RefreshFacts.v"],
         "runs": [{"engine": "discovery", "args": [], "n_quick": 2500, "n_thorough": 200000},
+                 {"engine": "refresh", "args": [], "n_quick": 400, "n_thorough": 40000, "netns": True, "mountns": True},
                  {"engine": "mdns", "args": [], "n_quick": 12, "n_thorough": 400, "netns": True}],
         "trivial_tags": [r"/miss$", r"^err$", r"^empty$", r"^n1$"],
         "rule": "appendUniq insertion sequences (1-8 adds over a 16-word pool; judged against sorted insertion); dnsmasq and isc-dhcpd lease "
@@ -262,6 +267,8 @@ PROPS = {
     },
     "C05": {
         "proof_files": ["Proofs/ReplyFacts.v"],
+        "generated": {"cmd": ["consts-extract"], "out": "Gen/SrcConsts.v",
+                      "compile": ["Gen/SrcConsts.v", "Properties/C05_consts.v"], "theorem": "C05_consts_agree"},
         "runs": [
             {"engine": "reply", "args": ["-mode", "c05"], "n_quick": 150, "n_thorough": 20000, "netns": True},
         ],
